@@ -100,7 +100,7 @@ pub fn pubkey_eq(a: &Pubkey, b: &Pubkey) -> (r: bool) ensures r == (*a == *b) { 
 //@ fn pinocchio/ported/util_shared.rs pino_is_locked_position -> r tags=C18
     ensures r == position_token_account.frozen(),
 //@ end
-pub struct ClockData { pub unix_timestamp: i64 }
+pub struct ClockData { pub slot: u64, pub epoch_start_timestamp: i64, pub epoch: u64, pub leader_schedule_epoch: u64, pub unix_timestamp: i64 }
 pub uninterp spec fn now_unix() -> i64;
 pub struct Clock {}
 impl Clock {
